@@ -74,6 +74,10 @@ class Ref:
         project_set(v, self.path[-1], val)
 
 
+class BoxRef(Ref):
+    """an owning pointer (Box<T>, Rc<T>, Arc<T>): behaves as a reference; `.0` projections peel its wrappers"""
+
+
 def project_get(v, p):
     kind = p[0]
     if kind == "field":
@@ -81,6 +85,9 @@ def project_get(v, p):
             return v.items[p[1]]
         if isinstance(v, (Adt, Enum)):
             return v.fields[p[1]]
+        if isinstance(v, BoxRef) and p[1] == 0:
+            # Box<T> / Unique<T> / NonNull<T> are represented by the pointer itself: `.0` peels a wrapper
+            return v
         raise Unsupported(f"field of {type(v)}")
     if kind == "downcast":
         if not isinstance(v, Enum) or v.variant != p[1]:
@@ -112,6 +119,8 @@ def copy_val(v):
         a = Adt(v.name, [copy_val(x) for x in v.fields])
         if hasattr(v, "origin"):
             a.origin = v.origin
+        if hasattr(v, "tl_name"):
+            a.tl_name = v.tl_name
         return a
     if isinstance(v, Enum):
         return Enum(v.variant, v.idx, [copy_val(x) for x in v.fields])
@@ -119,6 +128,9 @@ def copy_val(v):
 
 
 # ------------------------------------------------------------------ exploration control
+NOTHING = object()
+
+
 class PathEnd(Exception):
     pass
 
@@ -229,6 +241,23 @@ class PathCtx:
         return False, self.ex.solver.model()
 
 
+def strip_turbofish(callee):
+    """drop a trailing `::<...>` (balanced) from a callee path"""
+    c = callee.strip()
+    if not c.endswith(">"):
+        return c
+    depth = 0
+    for i in range(len(c) - 1, -1, -1):
+        ch = c[i]
+        if ch == ">" and not (i > 0 and c[i - 1] in "-="):
+            depth += 1
+        elif ch == "<":
+            depth -= 1
+            if depth == 0:
+                return c[:i - 2] if c[i - 2:i] == "::" else c
+    return c
+
+
 # ------------------------------------------------------------------ interpreter
 class Frame:
     def __init__(self, fn):
@@ -247,6 +276,11 @@ class Interp:
         self.raw, self.models, self.ctx = raw_fns, models, ctx
         self.enums = enums or {"Option": ["None", "Some"]}
         self.repo_root = os.environ.get("MIRSYM_REPO_ROOT", "/repo")
+        from adts import load_type_names
+        global _TYPE_NAMES
+        if "_TYPE_NAMES" not in globals() or _TYPE_NAMES[0] != self.repo_root:
+            _TYPE_NAMES = (self.repo_root, load_type_names(os.path.join(self.repo_root, "harper-core", "src")))
+        self.harper_types = _TYPE_NAMES[1]
         self.impl_cache = {}
         self.parsed = {}
         self.resolve_map = resolve_map or {}
@@ -307,7 +341,12 @@ class Interp:
                 self.steps += 1
                 if self.steps > self.max_steps:
                     raise Unsupported("step budget exhausted (unbounded loop?)")
-                self.exec_stmt(fr, s)
+                try:
+                    self.exec_stmt(fr, s)
+                except Unsupported as e:
+                    if " [in " not in str(e):
+                        raise Unsupported(f"{e} [in {name} {bb}: {s[:120]}]")
+                    raise
             t = parse_term(blk["term"])
             k = t[0]
             if k == "goto":
@@ -372,6 +411,13 @@ class Interp:
                 if callable(target):
                     return target(self, callee, args)
                 return self.call_fn(target, args)
+        m0 = re.match(r"^<(.+?) as ", callee) or re.match(r"^(\w+)::", callee)
+        if m0:
+            base0 = re.sub(r"<.*>", "", m0.group(1)).strip().lstrip("&").replace("mut ", "").strip().split("::")[-1]
+            if base0 in self.harper_types:
+                r = self.try_harper_call(callee, args)
+                if r is not NOTHING:
+                    return r
         norm = re.sub(r"\b(?:std|core|alloc)::(?:option|vec|result|rc|sync|collections(?:::vec_deque)?|iter|ops)::", "", callee)
         for pat, model in self.models:
             m = re.search(pat, norm)
@@ -379,20 +425,36 @@ class Interp:
                 return model(self, norm, args, m)
         if callee in self.raw:
             return self.call_fn(callee, args)
-        # a harper function called as `Type::method` / `<T as Trait>::method`: its MIR item is named
-        # `module::<impl at file:line:col: ..>::method`; resolve by method name AND the type the impl block is for
-        seg = re.sub(r"::<[^:]*>$", "", callee).split("::")[-1]
-        if re.fullmatch(r"\w+", seg):
-            cands = [n for n in self.raw if n.endswith("::" + seg) and "{closure" not in n]
-            m2 = re.match(r"^<(.+?) as ", callee)
-            ty = m2.group(1) if m2 else (re.match(r"^(\w+)::", callee) or [None, None])[1]
-            if cands and ty:
-                base = re.sub(r"<.*>", "", ty).strip().lstrip("&").replace("mut ", "").strip()
-                cands = [n for n in cands if self.impl_type(n) == base]
-                if len(cands) == 1:
-                    return self.call_fn(cands[0], args)
-                if len(cands) > 1:
-                    raise Unsupported(f"ambiguous harper callee `{callee}`: {cands[:4]}")
+        # dynamic dispatch: `<P as Trait>::method` with a generic / impl / dyn / smart-pointer self type - decided by the
+        # run-time value of the receiver (generic MIR is not monomorphised)
+        dm = re.match(r"^<(dyn [\w:]+|impl [\w:]+|&?(?:mut )?[A-Z]\w?|(?:Box|Rc|Arc|std::boxed::Box|std::rc::Rc)<.*>) as ([\w:]+)(?:<.*>)?>::(\w+)(?:::<.*>)?$", callee)
+        if dm and args:
+            obj = args[0]
+            while isinstance(obj, Ref):
+                obj = obj.get()
+            trait, meth = dm.group(2).split("::")[-1], dm.group(3)
+            tyname, is_closure = None, False
+            if isinstance(obj, Adt):
+                is_closure = obj.name.startswith("{closure@")
+                tyname = re.sub(r"<.*>", "", obj.name).split("::")[-1]
+            elif type(obj).__name__ in ("SliceRef", "VecObj"):
+                tyname = "[T]"
+            if tyname:
+                cands = [n for n in self.raw if n.endswith("::" + meth) and "{closure" not in n and self.impl_trait(n) == trait]
+                exact = [n for n in cands if self.impl_type(n) == tyname and not is_closure]
+                blanket_fn = [n for n in cands if self.impl_is_blanket_for_closure(n)]
+                blanket = [n for n in cands if re.fullmatch(r"[A-Z]\w?", self.impl_type(n) or "") and n not in blanket_fn]
+                cs = exact or (blanket_fn if is_closure else []) or blanket
+                if len(cs) == 1:
+                    a0 = args[0]
+                    while isinstance(a0, Ref) and isinstance(a0.get(), Ref):
+                        a0 = a0.get()
+                    return self.call_fn(cs[0], [a0] + list(args[1:]))
+                if len(cs) > 1:
+                    raise Unsupported(f"ambiguous dynamic dispatch `{callee}` on {tyname}: {cs[:3]}")
+        r = self.try_harper_call(callee, args)
+        if r is not NOTHING:
+            return r
         raise Unsupported(f"no model for call `{callee}`")
 
     def impl_type(self, fn_name):
@@ -421,6 +483,54 @@ class Interp:
                 pass
             self.impl_cache[key] = ty
         return self.impl_cache[key]
+
+    def impl_trait(self, fn_name):
+        """the trait an impl block `impl Trait for Type` implements (None for inherent impls)"""
+        m = re.search(r"<impl at ([^:>]+):(\d+):\d+: ", fn_name)
+        if not m:
+            return None
+        key = ("trait", m.group(1), int(m.group(2)))
+        if key not in self.impl_cache:
+            t = None
+            try:
+                lines = open(os.path.join(self.repo_root, m.group(1))).read().split("\n")
+                text = " ".join(lines[int(m.group(2)) - 1:int(m.group(2)) + 2])
+                mm = re.match(r"\s*(?:unsafe\s+)?impl(?:<[^{]*?>)?\s+([\w:]+)(?:<[^{]*?>)?\s+for\s+", text)
+                if mm:
+                    t = mm.group(1).split("::")[-1]
+            except OSError:
+                pass
+            self.impl_cache[key] = t
+        return self.impl_cache[key]
+
+    def impl_is_blanket_for_closure(self, fn_name):
+        """is this the `impl<F: Fn(..)> Trait for F` blanket impl?"""
+        m = re.search(r"<impl at ([^:>]+):(\d+):\d+: ", fn_name)
+        if not m:
+            return False
+        try:
+            lines = open(os.path.join(self.repo_root, m.group(1))).read().split("\n")
+        except OSError:
+            return False
+        text = " ".join(lines[int(m.group(2)) - 1:int(m.group(2)) + 6])
+        return bool(re.search(r"F:\s*Fn\(", text))
+
+    def try_harper_call(self, callee, args):
+        # a harper function called as `Type::method` / `<T as Trait>::method`: its MIR item is named
+        # `module::<impl at file:line:col: ..>::method`; resolve by method name AND the type the impl block is for
+        seg = strip_turbofish(callee).split("::")[-1]
+        if re.fullmatch(r"\w+", seg):
+            cands = [n for n in self.raw if n.endswith("::" + seg) and "{closure" not in n]
+            m2 = re.match(r"^<(.+?) as ", callee)
+            ty = m2.group(1) if m2 else (re.match(r"^(\w+)::", callee) or [None, None])[1]
+            if cands and ty:
+                base = re.sub(r"<.*>", "", ty).strip().lstrip("&").replace("mut ", "").strip()
+                cands = [n for n in cands if self.impl_type(n) == base]
+                if len(cands) == 1:
+                    return self.call_fn(cands[0], args)
+                if len(cands) > 1:
+                    raise Unsupported(f"ambiguous harper callee `{callee}`: {cands[:4]}")
+        return NOTHING
 
     def call_closure(self, clos, args):
         """clos: Adt named '{closure@...}' (or a ZeroSized closure marker)"""
@@ -513,6 +623,11 @@ class Interp:
             return Adt(ty, [])
         if s == "()":
             return ()
+        sm = re.fullmatch(r'"((?:[^"\\]|\\.)*)"', s)
+        if sm:
+            from models import StringObj
+            txt = bytes(sm.group(1), "utf-8").decode("unicode_escape") if "\\" in sm.group(1) else sm.group(1)
+            return StringObj([Int(z3.BitVecVal(ord(ch), 32), 32, False) for ch in txt])
         m = re.fullmatch(r"'(.)'", s)
         if m:
             return Int(z3.BitVecVal(ord(m.group(1)), 32), 32, False)
@@ -527,6 +642,13 @@ class Interp:
                 return self.make_variant(s, [])
             except Unsupported:
                 pass
+        if re.fullmatch(r"[\w:]+", s) and s.split("::")[-1] in self.harper_types:
+            return Adt(s.split("::")[-1], [])  # a unit struct
+        tl = re.fullmatch(r"[\w:<>, ]+::([A-Z][A-Z0-9_]+)", s)
+        if tl:
+            a = Adt("LocalKey", [])
+            a.tl_name = tl.group(1)
+            return a
         pm = re.fullmatch(r"(.+)::(\w+)::promoted\[(\d+)\]", s)
         if pm:
             # a promoted constant of function <..>::name: evaluate its MIR item
@@ -604,7 +726,7 @@ class Interp:
         if k == "array":
             from models import VecObj
             return VecObj([self.operand(fr, o) for o in rv[1]])
-        if k == "cast" and rv[3] == "PointerCoercion":
+        if k == "cast" and rv[3] in ("PointerCoercion", "Transmute", "PtrToPtr"):
             return self.operand(fr, rv[1])
         if k == "cast" and rv[3] in ("IntToFloat", "FloatToFloat"):
             return ("float-of", self.operand(fr, rv[1]))  # floats are opaque: carried, never inspected
